@@ -12,6 +12,7 @@ import (
 	"github.com/nxadm/tail"
 
 	"github.com/cube2222/octosql/config"
+	"github.com/cube2222/octosql/helpers/simhook"
 )
 
 type customCloser struct {
@@ -113,6 +114,9 @@ func OpenLocalFile(ctx context.Context, path string, opts ...OpenFileOption) (io
 		f, err := os.Open(path)
 		if err != nil {
 			return nil, fmt.Errorf("couldn't open file: %w", err)
+		}
+		if r := simhook.WrapFile(path, f); r != nil {
+			return &customCloser{Reader: bufio.NewReaderSize(r, config.FromContext(ctx).Files.BufferSizeBytes), close: f.Close}, nil
 		}
 		return &customCloser{
 			Reader: bufio.NewReaderSize(f, config.FromContext(ctx).Files.BufferSizeBytes),
